@@ -20,7 +20,7 @@ RULE = (
     "column slicer: ATOM/HETATM/TER records exactly 80 columns with every field in its columns, record grammar "
     "(MODEL n (atoms-of-a-chain TER)+ ENDMDL)* END with a TER after every chain run including the last chain of "
     "every model. Non-trivial: table with a 4-character name, 2-letter element, non-zero charge, quote in a name, "
-    "altloc, icode, >=2 models, >=2 chains or a negative number; distinct = distinct table. Also the splitter command line "
+    "altloc, icode, >=2 models, >=2 chains or a negative number; distinct = distinct table. An mmCIF dialect of the same table (item order permuted; label_entity_id / auth_atom_id / auth_comp_id left out) is read and written too. Also the splitter command line "
     "(PDB or mmCIF input, output format keep/PDB/mmCIF): one file per model holding exactly that model's atoms on all "
     "fields, written PDB obeying the layout."
 )
@@ -199,6 +199,17 @@ def oracle(case):
     out += diff_tables("cif->pdb", atoms, logical(df_cp), single)
     c3 = write_cif(df_cp)
     out += diff_tables("cif->pdb->cif", atoms, logical(parse_cif_atoms(c3)), single)
+    # an mmCIF dialect of the same table: item order permuted, items left out that carry none of the compared fields
+    dia = case.get("dialect")
+    if dia:
+        dtext = atomtab.emit_cif(atoms, case.get("null", "?"), dialect=dia)
+        df_d = parse_cif_atoms(dtext)
+        out += diff_tables("read-cif-dialect", atoms, logical(df_d), single)
+        if not out:
+            out += diff_tables("cif-dialect->cif", atoms, logical(parse_cif_atoms(write_cif(df_d))), single)
+            t4 = write_pdb(df_d)
+            out += check_pdb_layout("cif-dialect->pdb", t4, atoms)
+            out += diff_tables("cif-dialect->pdb", atoms, logical(parse_pdb_atoms(t4)), single)
     # file-object and path outputs agree with the returned string
     buf = io.StringIO()
     write_pdb(df_p, buf)
@@ -299,13 +310,18 @@ def classify(case):
         labs.append("negative")
     if any(not a["element"] for a in atoms):
         labs.append("element-absent")
+    if case.get("dialect"):
+        labs.append("cif-dialect")
     return bool(labs), labs
 
 
 def st_cases():
     from hypothesis import strategies as st
 
-    return st.fixed_dictionaries({"atoms": atomtab.st_tables(max_residues=4, max_atoms=6), "null": st.sampled_from(["?", "."])})
+    dialect = st.one_of(st.none(), st.fixed_dictionaries({
+        "drop": st.lists(st.sampled_from(["label_entity_id", "auth_atom_id", "auth_comp_id"]), max_size=3, unique=True),
+        "order": st.one_of(st.none(), st.integers(0, 10 ** 6))}))
+    return st.fixed_dictionaries({"atoms": atomtab.st_tables(max_residues=4, max_atoms=6), "null": st.sampled_from(["?", "."]), "dialect": dialect})
 
 
 def plan(tier, seed):
